@@ -21,7 +21,7 @@ for p in props:
             'engine': 'mirfacts+rules',
             'level_claimed': {
                 'category': 'other',
-                'text': "Static decision of the structural clauses only (%d rules, each a necessary condition of the property, evaluated on every path / call site of the type-checked program): %s" % (nrules, meta.EXPLAIN[pid]),
+                'text': "Static decision of the structural clauses only (%d rules, each a necessary condition of the property, evaluated on every path / call site of the type-checked program): %s" % (nrules, meta.explain(pid)),
                 'design_ref': meta.DESIGN_REF[pid],
             },
             'level_note': "Not decided (value/schedule/timing level): %s. Trusted: %s; rustc's MIR construction and trait resolution; the /verif exporter and rule engine." % (meta.NOT_DECIDED.get(pid, ''), '; '.join(meta.TRUSTED.get(pid, []))),
